@@ -140,37 +140,48 @@ func Check(id, tier string, seed int64) int {
 	var harness []string
 	var extraViol []Violation
 
+	// no-progress watchdog: confirm by re-running the affected shards alone
+	// (one after another, nothing else running)
 	for i := range outs {
 		o := &outs[i]
-		if o.exit == 3 {
-			// no-progress watchdog: confirm by re-running that shard alone
-			hangFile := filepath.Join(outdir, fmt.Sprintf("hang%02d.json", o.shard))
-			first, _ := os.ReadFile(hangFile)
-			os.Remove(hangFile)
-			again := runOne(p, tier, seed, o.shard, np, outdir, limit)
-			if again.exit == 3 {
-				second, _ := os.ReadFile(hangFile)
-				var rec struct {
-					Case   json.RawMessage `json:"case"`
-					Stacks string          `json:"stacks"`
-				}
-				json.Unmarshal(second, &rec)
-				st := rec.Stacks
-				if len(st) > 3000 {
-					st = st[:3000]
-				}
-				extraViol = append(extraViol, Violation{Kind: "hang", Detail: "no progress twice on the same case (isolated re-run confirmed)\n" + st, Case: rec.Case})
-				if again.res != nil {
-					o.res = again.res
-				}
-			} else if again.exit == 0 && again.res != nil && again.res.Done {
-				merged.Inconclusive["watchdog fired once, not confirmed"]++
-				_ = first
-				*o = again
-			} else {
-				*o = again
-			}
+		if o.exit != 3 {
+			continue
 		}
+		hangFile := filepath.Join(outdir, fmt.Sprintf("hang%02d.json", o.shard))
+		os.Remove(hangFile)
+		again := runOne(p, tier, seed, o.shard, np, outdir, limit)
+		if again.exit == 3 {
+			second, _ := os.ReadFile(hangFile)
+			var rec struct {
+				Case   json.RawMessage `json:"case"`
+				Stacks string          `json:"stacks"`
+			}
+			json.Unmarshal(second, &rec)
+			st := rec.Stacks
+			if len(st) > 3000 {
+				st = st[:3000]
+			}
+			extraViol = append(extraViol, Violation{Kind: "hang", Detail: "no progress twice on the same case (isolated re-run confirmed)\n" + st, Case: rec.Case})
+			if again.res != nil {
+				o.res = again.res
+			}
+			// one confirmed hang is enough to fail the run; do not spend the
+			// watchdog time again on the other shards
+			for j := range outs {
+				if outs[j].exit == 3 && j != i {
+					merged.Inconclusive["watchdog fired, not re-run (another shard already confirmed a hang)"]++
+				}
+			}
+			break
+		} else if again.exit == 0 && again.res != nil && again.res.Done {
+			merged.Inconclusive["watchdog fired once, not confirmed"]++
+			*o = again
+		} else {
+			*o = again
+		}
+	}
+	for i := range outs {
+		o := &outs[i]
 		switch {
 		case o.timeout:
 			merged.Inconclusive["outer wall-clock watchdog"]++
